@@ -138,7 +138,7 @@ def run_verus_unit(scratch, unit_path, obs):
 
 
 # ----------------------------------------------------------------------------- syntactic side condition for C15
-SCAN_PATTERN = r"\b(Cell|RefCell|UnsafeCell|OnceCell|OnceLock|LazyLock|Atomic[A-Za-z0-9]*|Mutex|RwLock|thread_local!|lazy_static!?)\b|\bstatic\s+mut\b"
+SCAN_PATTERN = r"\b(Cell|RefCell|UnsafeCell|SyncUnsafeCell|OnceCell|OnceLock|LazyLock|LazyCell|Once|Atomic[A-Za-z0-9]*|Mutex|RwLock|Condvar|thread_local!|lazy_static!?)\b|\bstatic\s+mut\b|\bspin::"
 # the only shared mutable state the workspace may reach: cpufeatures' detection cache (an AtomicU8 inside the macro)
 SCAN_ALLOWED = [("aes/src/autodetect.rs", "cpufeatures::new!"), ("aes/src/hazmat.rs", "cpufeatures::new!"), ("aes/src/lib.rs", "cpufeatures::new!")]
 
